@@ -276,6 +276,22 @@ def forInitH (env : CEnv) (v : String) (lvt : CT) : Except String ILEffect :=
     let (eff, _) ← compileAssign env (.var v lvt) "=" { il := numberIL ⟨true, 32, 1⟩ 0, ty := ⟨true, 32, 1⟩, kind := .lit 0 }
     .ok eff
 
+/-- The assignment target is visited before the source: an assignable immediate (`riV = riV & ~3`) is an
+    `Immediate` object like any other occurrence of the letter and registers its `imm_assign`. -/
+def regLhsH (st : HSt) : CExpr → HSt
+  | .imm l s => if st.live.contains l then st else { st with imms := st.imms ++ [(l, s)], live := st.live ++ [l] }
+  | _ => st
+
+@[simp] theorem regLhsH_hyb (st : HSt) (lhs : CExpr) : (regLhsH st lhs).hyb = st.hyb := by
+  cases lhs <;> simp only [regLhsH] <;> split <;> rfl
+
+@[simp] theorem regLhsH_pending (st : HSt) (lhs : CExpr) : (regLhsH st lhs).pending = st.pending := by
+  cases lhs <;> simp only [regLhsH] <;> split <;> rfl
+
+/-- for a register or local target the visit of the target changes nothing -/
+theorem regLhsH_of_not_imm (st : HSt) {lhs : CExpr} (h : ∀ l s, lhs ≠ .imm l s) : regLhsH st lhs = st := by
+  cases lhs <;> first | rfl | exact absurd rfl (h _ _)
+
 def assignSrcH (env : CEnv) (lhs : CExpr) (op : String) (ce : CE) : Except String (ILEffect × CE) :=
   compileAssign env lhs op ce
 
@@ -290,11 +306,13 @@ def compileStmtH (env : CEnv) (st : HSt) : CStmt → Except String (Option ILEff
       let (eff, st) := chk st (.setl n ce.il) []
       .ok (some eff, [], st)
   | .assign lhs op e => do
+      let st := regLhsH st lhs
       let (ce, st) ← compileExprH env st e
       let (eff, _) ← compileAssign env lhs op ce
       let (eff, st) := chk st eff []
       .ok (some eff, [], st)
   | .chain lhs1 lhs2 op2 e => do
+      let st := regLhsH (regLhsH st lhs1) lhs2
       let (ce, st) ← compileExprH env st e
       let (effInner, srcInner) ← compileAssign env lhs2 op2 ce
       let (effInner, st) := chk st effInner []
